@@ -354,10 +354,28 @@ def spec_of(argspec):
             "varkw": argspec.varkw is not None}
 
 
-def run_parser(f, argv, mode, stdin):
+def run_parser(f, argv, mode, stdin, calls=None):
     import io
     import pyflyby._py as P
     ns = P._Namespace()
+    real_eval = ns.auto_eval
+
+    def recording_eval(block, *a, **k):
+        try:
+            v = real_eval(block, *a, **k)
+        except P.UnimportableNameError:
+            calls.append([str(block), 0, ""])
+            raise
+        except SystemExit as e:
+            calls.append([str(block), 3, str(e.code)])
+            raise
+        except Exception:
+            calls.append([str(block), 1, ""])
+            raise
+        calls.append([str(block), 2, canon(v)])
+        return v
+    if calls is not None:
+        ns.auto_eval = recording_eval
     old = sys.stdin, sys.stderr, sys.stdout
     sys.stdin = io.StringIO(stdin)
     sys.stderr = sys.stdout = _Sink()
@@ -400,9 +418,14 @@ def impl_case(c):
     if c["kind"] == "parse":
         import pyflyby._py as P
         f, plain = make_callable(c["sig"], c["ckind"])
-        res, raw = run_parser(f, c["argv"], c["mode"], c["stdin"])
+        calls = []
+        res, raw = run_parser(f, c["argv"], c["mode"], c["stdin"], calls)
         out = {"res": res, "spec": spec_of(P._get_argspec(f)),
                "table": [[s] + oracle_entry(s) for s in candidate_strings(c["argv"])]}
+        # oracle hypothesis: what an evaluation gives on this very run is what the table says
+        from pyflyby._parse import PythonBlock
+        expected = {str(PythonBlock(row[0], flags=P.FLAGS)): row[2:] for row in out["table"]}
+        out["oracle_mismatch"] = [cl for cl in calls if expected.get(cl[0]) != cl[1:]]
         chars = sorted({ch for a in c["argv"] for ch in a if ord(ch) > 127})
         out["xs"] = [ch for ch in chars if ch.isidentifier()]
         out["xc"] = [ch for ch in chars if ("a" + ch).isidentifier()]
@@ -859,6 +882,10 @@ def compare(ctx, cases, impl, index, model):
             ctx.bump("result:" + (ires.get("err", "ok") + (":" + ires["kind"] if "kind" in ires else "")))
             if is_f13_shape(c):
                 ctx.bump("f13_shaped_input")
+            if im.get("oracle_mismatch"):
+                ctx.bump("oracle_hypothesis_failed")
+                ctx.disagreement("oracle hypothesis: an evaluation during the run differs from the fresh-namespace table",
+                                 c, im["oracle_mismatch"], None)
             if mres != ires:
                 lres = model_res(m["legacy"])
                 name = "_parse_auto_apply_args"
@@ -889,19 +916,22 @@ def compare(ctx, cases, impl, index, model):
 
 
 def run(ctx):
-    n = 3000 if ctx.quick else 120000
+    n = 3000 if ctx.quick else 60000
+    n = int(os.environ.get("VERIF_C15_N", n))
     ctx.coverage["rule"] = (
         "cases from one seeded PRNG: 80% _parse_auto_apply_args(_get_argspec(f), argv, ns, mode) on generated signatures "
         "(positional, defaults, *args, keyword-only, **kwargs, forced shared prefixes, non-ASCII names; plain function, bound "
         "method, class, opaque callable) x command lines (--k=v, --k v, -k v, -k=v, --k=, --, -, help forms, expression-like "
         "and shell-like strings) x string/eval/auto; 10% direct BindSpec.bind vs inspect.signature.bind; 10% _interpret_arg_mode; "
-        "plus bin/py subprocess runs; thorough adds all argv of length <= 3 over a 14-token alphabet x 5 signatures x 3 modes. "
+        "plus bin/py subprocess runs; thorough (60 000 generated) adds all argv of length <= 3 over a 14-token alphabet x 5 signatures x 3 modes (about 44 000 cases). "
         "non-trivial = an option or more than one argument; distinct by hash of the case")
     ctx.assumptions += [
         "expression evaluation is an oracle argument: for every string of the command line, `str(block).strip()`, "
         "`parsable_as_expression` and the outcome of _Namespace.auto_eval (value / UnimportableNameError / other exception / "
         "SystemExit) are taken from the real code in a fresh namespace on the run; evaluation is assumed not to depend on "
-        "the arguments evaluated before it (the generator has no expression that binds a name another one reads)",
+        "the arguments evaluated before it (the generator has no expression that binds a name another one reads); every "
+        "_Namespace.auto_eval call made during the parse is recorded and compared with that table (a difference is "
+        "reported as a disagreement)",
         "str.isidentifier on non-ASCII characters is an oracle argument (ASCII and the keyword list are in the model)",
         "sys.stdin.read() returns the rest of standard input once and '' afterwards",
         "BindSpec.bind is Python's call-binding rule: compared with inspect.signature(f).bind on every delivered call and "
